@@ -1,9 +1,7 @@
 (** C06 — statements that are NOT proved (kept as [Definition]s of type [Prop]; nothing here is
     used by Properties.v).
 
-    1. [open_permute_is_permutation]: the driver's [permute idx ds] is a permutation of [ds]
-       whenever [idx] is a permutation of 0..n-1 (C06_flush_runs_agree takes this as its
-       hypothesis; the harness always sends such an index list).
+    1. (proved in this round: C06_permute_is_permutation, C06_flush_runs_agree_idx.)
     2. [open_own_block_valid_full]: C06_own_block_valid_partial with the delegated checks opened
        up: VerifyCommit of the commit the proposer includes (C02), MedianTime being later than the
        previous block time for commits of honest voters, Block.ValidateBasic of what NewBlock
@@ -18,7 +16,3 @@
 From Coq Require Import List Arith Permutation.
 From Kardia Require Import C06.Model.
 Import ListNotations.
-
-Definition open_permute_is_permutation : Prop :=
-  forall (A : Type) (idx : list nat) (l : list A),
-    Permutation idx (seq 0 (length l)) -> Permutation l (permute idx l).
